@@ -194,6 +194,8 @@ func genC09(c *Ctx) {
 			descs: map[string][2]string{}, opaque: map[string]string{}, refines: map[string]bool{}, parts: map[string]string{}})
 	}
 
+	c09R8Progs(c, s) // schema shapes of round 8: dictionaries x value modifiers, the whole lexical class of TL identifiers
+
 	c09Builtin(c)
 	tools := c09Tools()
 	defer func() {
@@ -406,6 +408,8 @@ func genC09(c *Ctx) {
 			}
 		}
 	}
+
+	defer c09R8Dicts(c, s, out)() // dictionary value types against the schema (coqc overlaps step 5)
 
 	// 5. differential execution behind the checkers
 	for pi, p := range s.progs {
